@@ -319,4 +319,23 @@ def r5_recovery(ctx):
                     break
 
 
-RULES = [("R1", r1_table), ("R3", r3_duplicates), ("R4", r4_stays_ended), ("R5", r5_recovery)]
+def r6_entry_points(ctx):
+    """Positions inside AttrError are offsets in the owning tag: both event accessors hand the whole tag content and the
+    name length to the iterator and differ only in the HTML flag."""
+    for cfg, F in ctx.facts.items():
+        rows = {}
+        for fn in ("attributes", "html_attributes"):
+            b = ctx.body(F, "events::BytesStart::" + fn, "R6")
+            if b is None:
+                continue
+            for p in ctx.paths(b):
+                for c in calls(p):
+                    if name_is(c[2], "Attributes::wrap") and len(c[3]) == 3:
+                        a0, a1, a2 = (strip_wrappers(x) for x in c[3])
+                        whole = a0[0] == "pl" and is_self_field(a0, "buf") or (a0[0] == "call" and name_is(a0[2], "deref", "as_ref") and is_self_field(strip_wrappers(a0[3][0]), "buf"))
+                        pos = a1[0] == "pl" and is_self_field(a1, "name_len")
+                        rows[fn] = (bool(whole), bool(pos), a2[2] if a2[0] == "c" else sym.show(a2, 1))
+        ctx.ob("R6", "BytesStart::attributes|html_attributes", rows == {"attributes": (True, True, False), "html_attributes": (True, True, True)},
+               "both accessors iterate over the whole tag content starting at name_len (error positions are tag offsets); they differ only in the html flag: %s" % rows, config=cfg)
+
+RULES = [("R1", r1_table), ("R3", r3_duplicates), ("R4", r4_stays_ended), ("R5", r5_recovery), ("R6", r6_entry_points)]
